@@ -70,7 +70,15 @@ POOL: list[tuple[str, str, Any]] = [
     ("[a = 1]\n", "exec", None),
     ("s = 'é'; $X = ${'ü'} + $(ls é)\n", "exec", None),  # nodes built by shared helpers, on a line whose columns get converted
 ]
-N_FIXED = len(POOL)  # entries after this index are the 'deep' inputs appended by expected()
+N_FIXED = len(POOL)  # entries after this index take part in histories only (not in thread pairs)
+# parse_file on ONE path whose content changes between the calls (two threads writing one file would be the harness's own race)
+POOL += [
+    ("a = f'{alpha=}'\n", "file:a.xsh", None),
+    ("a = f'{gamma=}'; é = 1\n", "file:a.xsh", None),
+    ("bb = 2 +\n", "file:a.xsh", None),
+    ("x = 1\ny = 'é' + z\n", "file:b.xsh", None),
+]
+N_STATIC = len(POOL)  # entries after this index are the 'deep' inputs appended by expected()
 
 
 def outcome_of(i: int) -> list:
@@ -93,7 +101,25 @@ def outcome_of_call(src: str, mode: str, ver: Any) -> list:
 
     ver = tuple(ver) if ver else None
     try:
-        tree = XonshParser.parse_string(src, mode=mode, py_version=ver)
+        if mode.startswith("file:"):
+            import pathlib
+            import tempfile
+
+            d = pathlib.Path(tempfile.gettempdir()) / f"xpmc-c13-{os.getpid()}"
+            d.mkdir(exist_ok=True)
+            p = d / mode[5:]
+            try:
+                with open(p, "w", encoding="utf-8", newline="") as f:
+                    f.write(src)
+                tree = XonshParser.parse_file(p)
+            finally:
+                p.unlink(missing_ok=True)
+                try:
+                    d.rmdir()
+                except OSError:
+                    pass
+        else:
+            tree = XonshParser.parse_string(src, mode=mode, py_version=ver)
     except SyntaxError as e:
         return ["SyntaxError", type(e).__name__, e.msg, e.lineno, e.offset, e.end_lineno, e.end_offset, e.text]
     except TokenError as e:
@@ -151,7 +177,7 @@ def _add_deep_inputs() -> None:
     """Two inputs around the nesting depth at which a fresh interpreter (parse called on a fresh thread) starts to answer
     'too many nested ...': 6 levels below (accepted) and 6 levels above (rejected).  The stack a parse may use is process
     state the library could alter; these are the inputs whose outcome shows it."""
-    if len(POOL) > N_FIXED:
+    if len(POOL) > N_STATIC:
         return
 
     def accepted(n: int) -> bool:
@@ -195,6 +221,12 @@ def units(tier: str) -> list[tuple]:
         pairs = [(3, 0), (3, 3), (3, 14), (14, 3), (4, 0), (4, 4), (4, 3), (5, 0), (5, 16), (8, 10), (8, 15), (10, 8), (7, 15), (14, 15), (6, 3), (16, 5)]
     for a, b in pairs:
         us.append(("sched", a, b, 1))
+    if len(POOL) > N_STATIC:
+        # a short call against the deeply nested input that is still accepted: process-wide settings (the recursion limit)
+        # saved and restored around a parse race between threads; 2 preemptions on a grid of 12 x 11 points
+        us.append(("sched", 0, N_STATIC, 2, "sampled"))
+        if tier == "thorough":
+            us.append(("sched", 2, N_STATIC, 2, "sampled"))
     if tier == "thorough":
         for a, b in [(3, 3), (3, 14), (14, 3), (4, 8), (8, 10), (10, 10), (5, 16), (16, 0), (14, 15), (7, 15), (8, 15), (6, 3)]:
             us.append(("sched", a, b, 2))
@@ -215,7 +247,7 @@ def cases(unit: tuple) -> Iterator[dict]:
     elif k == "chain":
         yield {"chain": True}
     else:
-        yield {"sched": [unit[1], unit[2]], "preemptions": unit[3]}
+        yield {"sched": [unit[1], unit[2]], "preemptions": unit[3], **({"sampled": True} if len(unit) > 4 else {})}
 
 
 def run_unit(unit: tuple, acc: Any) -> None:
@@ -256,7 +288,9 @@ def _short(o: list) -> list:
 
 def _name(i: int) -> str:
     src = POOL[i][0]
-    return repr(src[:24]) if i < N_FIXED else f"'(' * {src.count('(')} + '1' + ')' * {src.count('(')}"
+    if i >= N_STATIC:
+        return f"'(' * {src.count('(')} + '1' + ')' * {src.count('(')}"
+    return repr(src[:24]) + (f" [{POOL[i][1]}]" if POOL[i][1].startswith("file:") else "")
 
 
 def chain() -> list[int]:
@@ -406,7 +440,11 @@ def explore_schedules(a: int, b: int, preemptions: int, acc: Any, case: dict) ->
     ms: list[int | None] = [None]
     if preemptions >= 2:
         ms = [None] + list(range(1, nb + 1, max(1, nb // 40)))
-    for k in range(1, na + 1):
+    ks = range(1, na + 1)
+    if case.get("sampled"):  # a grid instead of every point: the deep input has tens of thousands of scheduling points
+        ks = sorted(set(range(1, na + 1, max(1, na // 8))) | set(range(1, min(na, 4) + 1)))
+        ms = [None] + list(range(1, nb + 1, max(1, nb // 10)))
+    for k in ks:
         for m in ms:
             ra, rb, info = run_schedule(a, b, k, m)
             acc.ran(2)
